@@ -298,6 +298,21 @@ def zero_edit_cases(tier, seed, stores=("local",)):
                 descs[(len(versions) - 2, len(versions) - 1)] = d
                 hist.append({"v": len(versions) - 1, "new_process": True})
                 cur = q
+            if layout in ("three", "deep") and form in ("from_import", "rel_from"):
+                # a leaf helper without dependencies moves to another accepted module (imports follow, texts stay)
+                mv = gen.add_fn(cur, ids["leaf"], "standalone_helper", const=77)
+                cur["fns"][ids["A"]]["stmts"].append(gen.s_call(mv, []))
+                versions.append(cur)
+                hist.append({"v": len(versions) - 1, "new_process": True})
+                q, d = gen.e_move_fn(cur, mv, ids["mid"])
+                # in its new module the helper must be defined before its user
+                q["order"][ids["mid"]].remove(("fn", mv))
+                q["order"][ids["mid"]].insert(0, ("fn", mv))
+                versions.append(q)
+                descs[(len(versions) - 2, len(versions) - 1)] = d
+                hist.append({"v": len(versions) - 1, "new_process": True})
+                hist.append({"v": len(versions) - 1, "new_process": False})
+                cur = q
             if gen.relocatable(cur):
                 q, d = gen.e_relocate(cur, cur["pkg"] + "_moved")
                 versions.append(q)
@@ -405,6 +420,9 @@ def random_program(rng, pkg, nfn=None, with_loads=False):
                         args.append(gen.local(rng.randrange(len(f["stmts"]))))
                     elif allow_runtime and r < 0.65 and f["params"]:
                         args.append(gen.param(rng.choice(f["params"])[0]))
+                    elif allow_runtime and r < 0.72 and [v for v in vids if mods.index(p["vars"][v]["module"]) <= mi]:
+                        # a tracked module variable passed as an argument (a run-time expression for dds)
+                        args.append(gen.varg(rng.choice([v for v in vids if mods.index(p["vars"][v]["module"]) <= mi])))
                     else:
                         args.append(gen.lit(rng.choice(["0", "1", "2", "'s'", "None", "True", "1.5"])))
                 # all-or-nothing on required params
@@ -624,7 +642,9 @@ def location_cases(tier, seed):
                 p1, d = gen.e_set_lit(p0, ids["main"], 0, 1, "88")
             d["position"] = pos
             d["location"] = location
-            for hn, hist in (("restart", history_restart([0, 1, 0, 1])), ("same", history_same_process([0, 1, 0, 1], "rerun"))):
+            same = history_same_process([0, 0, 1, 0, 1], "rerun")
+            same[1]["redefine_all"] = True  # every definition run again, unchanged, in later cells / the script run again
+            for hn, hist in (("restart", history_restart([0, 1, 0, 1])), ("same", same)):
                 c = _case("location:%s/%s@%s|%s|local" % (location, what, pos, hn), [p0, p1], {(0, 1): d}, hist, "local")
                 c["location"] = location
                 cases.append(c)
